@@ -394,6 +394,76 @@ def main():
     tr = len(re.findall(r"unsafe\s*\{\s*transmute\(self\)\s*\}", lib))
     L.append(f"def transmute_sites : Nat := {tr}")
 
+    # ---- auto-trait model input: ADT fields as structured types
+    L.append("")
+    L.append("inductive Adt where\n  | Sender | AsyncSender | Receiver | AsyncReceiver | Signal | SignalTerminator | KanalPtr | ChannelInternal\n  | SendFuture | ReceiveFuture | ReceiveStream | RawMutexLock | KanalWaker | FutureState | Unknown\n  deriving DecidableEq, Repr")
+    L.append("inductive Ty where\n  | param | prim | atomic | waker | thread | phantomPinned\n  | rawPtr (t : Ty) | unsafeCell (t : Ty) | maybeUninit (t : Ty) | option (t : Ty) | vecDeque (t : Ty)\n  | box (t : Ty) | pin (t : Ty) | arc (t : Ty) | ref (t : Ty) | mutex (raw : Ty) (t : Ty) | adt (a : Adt) | unknown\n  deriving DecidableEq, Repr")
+    ADTS = ["Sender", "AsyncSender", "Receiver", "AsyncReceiver", "Signal", "SignalTerminator", "KanalPtr", "ChannelInternal",
+            "SendFuture", "ReceiveFuture", "ReceiveStream", "RawMutexLock", "KanalWaker", "FutureState"]
+    alias = re.search(r"type\s+Internal<T>\s*=\s*([^;]+);", internal)
+    alias_rhs = alias.group(1).strip() if alias else "?"
+    mutex_alias = re.search(r"pub\s+type\s+Mutex<T>\s*=\s*lock_api::Mutex<(\w+),\s*T>", mtx)
+    raw_name = mutex_alias.group(1) if mutex_alias else "?"
+    def split_args(t):
+        parts, depth, cur = [], 0, ""
+        for ch in t:
+            if ch == "<": depth += 1
+            elif ch == ">": depth -= 1
+            if ch == "," and depth == 0:
+                parts.append(cur.strip()); cur = ""
+            else:
+                cur += ch
+        if cur.strip(): parts.append(cur.strip())
+        return [p for p in parts if not p.startswith("'")]
+    def ty(t):
+        t = t.strip()
+        if t.startswith("&"):
+            t2 = re.sub(r"^&\s*('\w+\s+)?(mut\s+)?", "", t)
+            return "(.ref %s)" % ty(t2)
+        if t.startswith("*const") or t.startswith("*mut"):
+            return "(.rawPtr %s)" % ty(re.sub(r"^\*(const|mut)\s+", "", t))
+        m = re.match(r"([\w:]+)\s*(<(.*)>)?$", t, re.S)
+        if not m: return ".unknown"
+        name, args = m.group(1).split("::")[-1], split_args(m.group(3)) if m.group(3) else []
+        if name == "T": return ".param"
+        if name in ("bool", "usize", "u8", "u16", "u32", "u64", "isize"): return ".prim"
+        if name in ("AtomicU8", "AtomicBool", "AtomicUsize", "AtomicU32"): return ".atomic"
+        if name == "Waker": return ".waker"
+        if name == "Thread": return ".thread"
+        if name == "PhantomPinned": return ".phantomPinned"
+        one = {"UnsafeCell": "unsafeCell", "MaybeUninit": "maybeUninit", "Option": "option", "VecDeque": "vecDeque",
+               "Box": "box", "Pin": "pin", "Arc": "arc"}
+        if name in one and len(args) == 1: return "(.%s %s)" % (one[name], ty(args[0]))
+        if name == "Internal": return ty(alias_rhs)
+        if name == "Mutex" and len(args) == 1: return "(.mutex (.adt .%s) %s)" % (raw_name if raw_name in ADTS else "Unknown", ty(args[0]))
+        if name in ADTS: return "(.adt .%s)" % name
+        return ".unknown"
+    rows = []
+    for src, names in ((lib, ["Sender", "AsyncSender", "Receiver", "AsyncReceiver"]), (sig, ["Signal", "SignalTerminator"]),
+                       (ptr, ["KanalPtr"]), (internal, ["ChannelInternal"]), (fut, ["SendFuture", "ReceiveFuture", "ReceiveStream"]), (mtx, ["RawMutexLock"])):
+        for n in names:
+            f = struct_fields(src, n) or []
+            rows.append("(.%s, [%s])" % (n, ", ".join(ty(b) for a, b in f)))
+    # enums: KanalWaker (payload types of its variants), FutureState (field-less)
+    kwf = []
+    for v in re.findall(r"^\s*\w+\(([^)]*)\)\s*,", kwb, re.M):
+        kwf.append(ty(v))
+    rows.append("(.KanalWaker, [%s])" % ", ".join(kwf))
+    rows.append("(.FutureState, [])")
+    L.append("def adtFields : List (Adt × List Ty) := [\n  %s]" % ",\n  ".join(rows))
+    ui = []
+    for src in (lib, sig, ptr, internal, fut, mtx):
+        for m in re.finditer(r"unsafe\s+impl\s*(<[^>]*>)?\s*(Send|Sync)\s+for\s+(\w+)", src):
+            bounds = re.sub(r"\s+", "", m.group(1) or "")
+            nm = m.group(3) if m.group(3) in ADTS else "Unknown"
+            ui.append("(.%s, %s, %s, %s)" % (nm, "true" if m.group(2) == "Send" else "false",
+                                              "true" if re.search(r"T:[^,>]*Send", bounds) else "false",
+                                              "true" if re.search(r"T:[^,>]*Sync", bounds) else "false"))
+    L.append("/-- (type, the impl is for Send (else Sync), bound requires T: Send, bound requires T: Sync) -/")
+    L.append("def unsafeAutoImpls : List (Adt × Bool × Bool × Bool) := [%s]" % ", ".join(ui))
+    emit_bool("handles_reprC_single_internal", all(
+        re.search(r"#\[repr\(C\)\]\s*pub\s+struct\s+" + n + r"<T>\s*\{\s*internal\s*:\s*Internal<T>\s*,?\s*\}", lib) for n in ("Sender", "AsyncSender", "Receiver", "AsyncReceiver")))
+    emit_bool("internal_alias_is_arc_mutex", re.sub(r"\s+", "", alias_rhs) == "Arc<Mutex<ChannelInternal<T>>>")
     L.append("\nend Kanal.Generated")
     text = "\n".join(L) + "\n"
     old = open(out).read() if os.path.exists(out) else None
